@@ -68,6 +68,7 @@ func checkC17(p *Prog, res *Result, tier string) {
 	res.rule("C17-R6", "expiry deletes follow the worker's failed-delete discipline with the record's user key, so that an event is removed wholly or its remaining records are left alone (C07-R4)", 2)
 	res.rule("C17-R9", "the index record and the version record of one write carry the same TTL: an Event expires wholly", 4)
 	res.rule("C17-R10", "a compaction mark (revision, time logged) is immutable: its fields are written where it is made and nowhere else - 'older than the TTL' on engines without native TTL is read off these pairs", 1)
+	res.rule("C17-R12", "the key whose delete failed is remembered for the rest of the scan: the worker's marker field is never cleared inside a loop (the guard that passes over the remaining records of that key reads it)", 1)
 	res.rule("C17-R11", "the age of a compaction mark is compared with the TTL as measured (time.Since of the mark's time), not rounded or truncated", 1)
 	res.rule("C17-R5", "expiry disabled on engines with native TTL; TTL handed to the engine only on the classified branch", 2)
 
@@ -705,6 +706,7 @@ func checkC17(p *Prog, res *Result, tier string) {
 
 	checkCompactMarksImmutable(p, res, "C17-R10")
 	checkAgeNotRounded(p, res, "C17-R11")
+	checkFailedDeleteMarkerKept(p, res, "C17-R12")
 	// ---- R6: the failed-delete discipline on the expiry chains (C07-R4) ----
 	if !c17NoImports {
 		sub7 := p.subResult("C07", tier)
